@@ -278,7 +278,43 @@ class C05(Prop):
                "thermostat_parameters": R.ThermostatParametersResponse, "schedules": R.SchedulesResponse, "alerts": R.AlertsResponse,
                "uid": R.UIDResponse, "password": R.PasswordResponse}[k]
 
-        def decode_once():
+        def scribble(x, depth=0):
+            """change a decoded result in place, the way a caller editing it would (flags flipped, numbers bumped)"""
+            if depth > 6:
+                return
+            if isinstance(x, list):
+                for i, e in enumerate(x):
+                    if isinstance(e, bool):
+                        x[i] = not e
+                    elif isinstance(e, int):
+                        x[i] = e + 1
+                    else:
+                        scribble(e, depth + 1)
+            elif isinstance(x, dict):
+                for kk, e in list(x.items()):
+                    if isinstance(e, bool):
+                        x[kk] = not e
+                    elif isinstance(e, (int, float)) and e == e:
+                        x[kk] = e + 1
+                    else:
+                        scribble(e, depth + 1)
+            elif isinstance(x, tuple):
+                for e in x:
+                    scribble(e, depth + 1)
+            elif hasattr(x, "__dataclass_fields__"):
+                for name in x.__dataclass_fields__:
+                    try:
+                        e = getattr(x, name)
+                        if isinstance(e, bool):
+                            setattr(x, name, not e)
+                        elif isinstance(e, int):
+                            setattr(x, name, e + 1)
+                        else:
+                            scribble(e, depth + 1)
+                    except Exception:  # noqa: BLE001  (frozen dataclasses)
+                        pass
+
+        def decode_once(scribble_after=False):
             buf = bytearray(payload)
             fr = cls(message=buf)
             dev = None
@@ -296,8 +332,12 @@ class C05(Prop):
                 data = fr.data
             except Exception as e:  # noqa: BLE001
                 return {"error": type(e).__name__}, bytes(buf) == payload
-            return self._canon(k, c, data, t), bytes(buf) == payload
-        a, same1 = decode_once()
+            canon = self._canon(k, c, data, t)
+            if scribble_after:
+                scribble(data)
+            return canon, bytes(buf) == payload
+        # the first result is edited in place by its caller before the same bytes are decoded again (from a fresh frame)
+        a, same1 = decode_once(scribble_after=True)
         b, same2 = decode_once()
         return {"decoded": a, "deterministic": a == b, "payload_untouched": same1 and same2}
 
